@@ -164,11 +164,14 @@ pub struct SrvCfg {
 	/// every connection's service is made with `builder.clone().set_http_middleware(..)` (an empty layer stack), the way
 	/// an application adds per-connection HTTP middleware; the connection guard must stay shared
 	pub per_conn_http_mw: bool,
+	/// the configuration builder gets its transport restriction as the LAST call (`Some(true)` = ws_only, `Some(false)` =
+	/// http_only), after every limit has been set
+	pub restrict_last: Option<bool>,
 }
 
 impl Default for SrvCfg {
 	fn default() -> Self {
-		SrvCfg { conns: vec![], scripts: vec![], stop: false, stop_twice: false, drop_handles: false, max_subs: 16, max_conns: 16, buffer: 16, slow_steps: 1, connect_points: false, tcp: false, max_resp: 0, wide_ids: 0, ping_ms: None, low_ws: false, const_ids: false, per_conn_http_mw: false }
+		SrvCfg { conns: vec![], scripts: vec![], stop: false, stop_twice: false, drop_handles: false, max_subs: 16, max_conns: 16, buffer: 16, slow_steps: 1, connect_points: false, tcp: false, max_resp: 0, wide_ids: 0, ping_ms: None, low_ws: false, const_ids: false, per_conn_http_mw: false, restrict_last: None }
 	}
 }
 
@@ -336,6 +339,14 @@ fn methods(ctx: Ctx) -> Methods {
 }
 
 fn server_cfg(c: &SrvCfg) -> ServerConfig {
+	match c.restrict_last {
+		Some(true) => server_cfg_builder(c).ws_only().build(),
+		Some(false) => server_cfg_builder(c).http_only().build(),
+		None => server_cfg_builder(c).build(),
+	}
+}
+
+fn server_cfg_builder(c: &SrvCfg) -> jsonrpsee_server::ServerConfigBuilder {
 	let mut b = ServerConfig::builder().max_subscriptions_per_connection(c.max_subs).max_connections(c.max_conns).set_message_buffer_capacity(c.buffer);
 	if c.max_resp > 0 {
 		b = b.max_response_body_size(c.max_resp);
@@ -353,12 +364,12 @@ fn server_cfg(c: &SrvCfg) -> ServerConfig {
 				jsonrpsee_types::SubscriptionId::Str("X".into())
 			}
 		}
-		return b.set_id_provider(ConstId).build();
+		return b.set_id_provider(ConstId);
 	}
 	if c.wide_ids > 0 {
-		b.set_id_provider(crate::srv::WideCounterIds(c.wide_ids, std::sync::atomic::AtomicU64::new(1))).build()
+		b.set_id_provider(crate::srv::WideCounterIds(c.wide_ids, std::sync::atomic::AtomicU64::new(1)))
 	} else {
-		b.set_id_provider(crate::srv::CounterIds(std::sync::atomic::AtomicU64::new(1))).build()
+		b.set_id_provider(crate::srv::CounterIds(std::sync::atomic::AtomicU64::new(1)))
 	}
 }
 
